@@ -1,6 +1,7 @@
 package main
 
 import (
+	"runtime/debug"
 	"bytes"
 	"context"
 	"fmt"
@@ -350,12 +351,22 @@ func runConcSecret(c *concCase) {
 	defer setYield(nil)
 	var inside, closeReturned int64
 	readers := 1 + r.Intn(3)
-	closers := 1 + r.Intn(2)
+	closers := r.Intn(3) // 0: readers only (windows between overlapping readers are not cut short by a Close)
+	if closers == 0 {
+		readers = 2 + r.Intn(3)
+	}
 	c.Threads = readers + closers
 	for i := 0; i < readers; i++ {
 		i := i
 		nested := r.Chance(1, 3)
 		s.Go(fmt.Sprintf("r%d", i), func() {
+			// a read of pages that are no longer (or not yet) readable becomes a recoverable panic instead of killing the run
+			debug.SetPanicOnFault(true)
+			defer func() {
+				if r := recover(); r != nil {
+					vs.add("reader %d faulted inside its callback (pages not readable while a reader is running): %v", i, r)
+				}
+			}()
 			err := sec.WithBytes(func(b []byte) error {
 				atomic.AddInt64(&inside, 1)
 				defer atomic.AddInt64(&inside, -1)
@@ -408,8 +419,12 @@ func runConcSecret(c *concCase) {
 	setYield(nil)
 	c.Trace = s.Trace
 	if !sec.IsClosed() {
-		vs.add("after every closer returned the secret is not closed")
-		sec.Close()
+		if closers > 0 {
+			vs.add("after every closer returned the secret is not closed")
+		}
+		if err := sec.Close(); err != nil {
+			vs.add("Close after all readers finished failed: %v", err)
+		}
 	}
 	if err := sec.WithBytes(func([]byte) error { return nil }); err == nil {
 		vs.add("access after Close did not return an error")
